@@ -84,11 +84,11 @@ func (c *deployCommand) run(cmd *cobra.Command, args []string) error {
 func (c *deployCommand) preRun(cmd *cobra.Command, args []string) error {
 	c.args.ServiceOptions.Normalize()
 
-	if cmd.Flags().Changed("max-request-body") && !cmd.Flags().Changed("buffer-requests") {
+	if cmd.Flags().Changed("max-request-body") && !c.args.TargetOptions.BufferRequests {
 		return fmt.Errorf("max-request-body can only be set when request buffering is enabled")
 	}
 
-	if cmd.Flags().Changed("max-response-body") && !cmd.Flags().Changed("buffer-responses") {
+	if cmd.Flags().Changed("max-response-body") && !c.args.TargetOptions.BufferResponses {
 		return fmt.Errorf("max-response-body can only be set when response buffering is enabled")
 	}
 
